@@ -87,3 +87,12 @@ func (s *Server) PoolCountsForVerif() (int, int) {
 func (s *Server) CleanupExpiredForVerif(timeoutNs int64) int {
 	return s.sessions.CleanupExpired(time.Duration(timeoutNs))
 }
+
+// HoldsForVerif reports whether the pool records an address for the session.
+func (p *IPPool) HoldsForVerif(sessionID string) bool {
+	_, ok := p.allocated[sessionID]
+	return ok
+}
+
+// CountsForVerif returns (free, allocated) address counts.
+func (p *IPPool) CountsForVerif() (int, int) { return len(p.available), len(p.allocated) }
